@@ -46,13 +46,13 @@ CHECKS = {
             "C14_signal_iff, C14_completing_press, C14_tracker_is_keys_down, C14_never_when_empty(_history).",
             "The blocking send on the signal channel is not modelled."),
     "C15": ("Lean 4 proof over transition-system models of the fan-out and the relay (all interleavings of the model) + source fact regenerated from fan.go + scripted and free-running runs of the real goroutines",
-            "C15_source_facts (the broadcast send is selected against a per-output leaving signal), C15_despawn_blocks_unguarded (machine-checked witness of the repaired deadlock), C15_despawn_completes_on_wedge; further theorems (exactly-once invariant over all schedules, relay order) in HidiProofs/Props/C15.lean as listed in the evidence.",
+            "C15_fan_exactly_once (for every schedule each connected output has been given exactly the block of the dispatch log since its spawn, in order — HidiProofs/FanLemmas.lean), C15_fan_quiescent, C15_ids_distinct, C15_relay_order / C15_relay_complete (per emitter: exactly once, in emission order), C15_source_facts (send selected against a per-output leaving signal), C15_despawn_blocks_unguarded (witness of the repaired deadlock), C15_despawn_completes_on_wedge.",
             "Partial by nature: goroutine scheduling belongs to the Go runtime; conformance of the real goroutines to the model is sampled (scripts + stress runs with watchdogs), the theorems cover every interleaving of the model only."),
     "C16": ("Lean 4 source facts + lock-discipline model; race-detector runs of the real goroutines (1-8 devices concurrently, LED loop against a fake OpenRGB server)",
             "C16_source_facts (the disconnect clean-up runs under eventProcessMutex, regenerated from events.go) and the theorems listed in the evidence; the decision on the implementation: every ProcessEvents returns promptly, no goroutine is left, the race detector is silent, each device's output equals its output when run alone.",
             "Partial by nature: schedules are sampled under the race detector; a peer that never answers TCP is not modelled."),
     "C17": ("Lean 4 proof over the frame model (painting order, byte arithmetic, exact channel colours) + source facts + frames of the real LED loop captured by a fake OpenRGB server",
-            "C17_source_facts (checked frame writes; Note On velocity 0 = Note Off), C17_led_names_distinct and the frame theorems listed in the evidence; independent per-LED expectation from State(), the device's own MIDI output and the MIDI-input script evaluated on every captured frame.",
+            "C17_frame_total (any layout incl. none: one colour per LED, nothing outside the frame written), C17_layout (an action paints at most the LED of its own key), C17_active (LEDs of keys at a held pitch show the active colour whatever was painted before), C17_midi_in_note_off / note_on_zero / note_on / cleared, C17_panic_clears, C17_channel_colours, C17_source_facts, witnesses C17_unchecked_crashes / C17_unchecked_hits_led0; independent per-LED expectation from State(), the device's own MIDI output and the MIDI-input script evaluated on every captured frame.",
             "Trusted/partial: go-colorful HSV round trip (class colours taken from the real shiftColor each run, measured ±1/255); frames sampled after quiescence; |12·octave+semitone| ≤ 127."),
     "C18": ("Lean 4 proof over a file-tree model + differential correspondence + real interrupted runs (RLIMIT_FSIZE, strace fault injection)",
             "C18_frame (user files untouched, any tree), C18_restores (factory files equal the template after a successful run), C18_blacklist_created; crash states of the model are replayed on the real function.",
